@@ -472,7 +472,7 @@ func c04(x *mon.Ctx) {
 			x.Require("level-shape/"+sh, 0, 18, 18) // the level matches, and a level without a status is not UpToDate
 			continue
 		}
-		x.Require("level-shape/"+sh, 6, 12, 18) // accepted only through the well-formed UpToDate second level
+		x.Require("level-shape/"+sh, 0, 12, 18) // acceptable only through the well-formed UpToDate second level (refusing the whole document is allowed too)
 	}
 	x.Extra["exhaustive_1_level_space"] = true
 	x.Extra["abstract_levels"] = len(abs)
